@@ -10,6 +10,8 @@ pub mod e3;
 pub mod report;
 pub mod checks;
 pub mod cms;
+pub mod daemon;
+pub mod routes;
 
 fn main() {
     let args: Vec<String> = std::env::args().collect();
@@ -62,6 +64,7 @@ fn main() {
                 "C11" => checks::pubd::run_c11(&tier, &args),
                 "C17" => checks::c17::run(&tier, &args),
                 "C12" => checks::c12::run(&tier, &args),
+                "C16" => checks::c16::run(&tier, &args),
                 _ => { eprintln!("unknown property {id}"); 2 }
             };
             std::process::exit(code);
@@ -75,6 +78,13 @@ fn main() {
 
 /// Common process set-up for all engines: frozen virtual clock, key pool,
 /// fatal hook (observe would-be process::exit as a panic), quiet panics.
+/// Every panic message seen in this process (also on other threads).
+pub static PANICS: std::sync::Mutex<Vec<String>> = std::sync::Mutex::new(Vec::new());
+
+pub fn take_panics() -> Vec<String> {
+    PANICS.lock().map(|mut p| std::mem::take(&mut *p)).unwrap_or_default()
+}
+
 pub fn init_engine() {
     clock::self_test();
     clock::freeze();
@@ -83,6 +93,11 @@ pub fn init_engine() {
         panic!("KRILL-FATAL(process::exit): {reason}");
     })));
     std::panic::set_hook(Box::new(|info| {
+        if let Ok(mut p) = PANICS.lock() {
+            if p.len() < 64 {
+                p.push(info.to_string());
+            }
+        }
         if std::env::var("VERIF_PANIC_TRACE").is_ok() {
             eprintln!("panic: {info}");
         }
